@@ -27,12 +27,28 @@ var oBases = []string{
 // outside it, all named from a small menu of auto-generated-looking names, so
 // that hoisting children out of a deleted or moved container meets name
 // collisions in every combination.
+// oDeepCollision: the last collision base nests container a inside p and one of
+// the names of a's children is taken in p.
+var oDeepCollision bool
+
 func oCollisionBase() string {
-	names := []string{"x", "x 2", "x 3", "y"}
-	pick := func(tag string) string { return names[nd.Choose(tag, 0, len(names)-1)] }
+	oDeepCollision = false
+	names := []string{"x", "x 2", "y", "x 3"}
+	pick := func(tag string) string { return names[nd.Choose(tag, 0, nd.Param("CN", len(names))-1)] }
 	c1, c2, o1, o2 := pick("c1"), pick("c2"), pick("o1"), pick("o2")
 	nd.Assume(c1 != c2 && o1 != o2)
-	return "a: LA {\n  " + c1 + ": L1\n  " + c2 + ": L2\n}\n" + o1 + ": L3\n" + o2 + ": L4\n"
+	// the children are declared on their own, or exist only as the endpoints of a connection
+	children := "  " + c1 + ": L1\n  " + c2 + ": L2\n"
+	if nd.Bool("viaedge") {
+		children = "  " + c1 + " -> " + c2 + ": L5\n"
+	}
+	inner := "a: LA {\n" + children + "}\n" + o1 + ": L3\n" + o2 + ": L4\n"
+	if nd.Bool("deep") {
+		oDeepCollision = c1 == o1 || c1 == o2 || c2 == o1 || c2 == o2
+		// the same one level down: container p.a next to p's own children
+		return "p: LP {\n  " + strings.ReplaceAll(strings.TrimSuffix(inner, "\n"), "\n", "\n  ") + "\n}\n"
+	}
+	return inner
 }
 
 func oCompile(text string) *d2graph.Graph {
@@ -44,9 +60,11 @@ func oCompile(text string) *d2graph.Graph {
 }
 
 func oBase() (*d2graph.Graph, string) {
+	oDeepCollision = false
 	nb := nd.Param("BASES", len(oBases))
 	bi := nd.Choose("base", 0, nb-1+nd.Param("COLL", 0))
 	var t string
+	oCollisionActive = bi >= nb
 	if bi >= nb {
 		t = oCollisionBase()
 	} else {
@@ -57,7 +75,7 @@ func oBase() (*d2graph.Graph, string) {
 	return g, t
 }
 
-var oObjKeys = []string{"a", "b", "a.b", "a.c", "d", "z", "A", "a.z", "a.b.c", "d.b", "z.y", "B"}
+var oObjKeys = []string{"a", "b", "a.b", "a.c", "d", "z", "A", "a.z", "a.b.c", "d.b", "z.y", "B", "p.a", "p"}
 var oEdgeKeys = []string{"(a -> b)[0]", "(a -> b)[1]", "(b -> a)[0]", "a.(b -> c)[0]", "(a.b -> d)[0]", "(a.b.c -> d.b)[0]", "(a -> z)[0]", "(A -> b)[0]", "(b -> d)[0]", "z.(m -> n)[0]", "(d -> a)[0]"}
 
 var oEdgeCreateKeys = []string{"a -> b", "b -> a", "a.b -> a.c", "a -> z", "A -> b", "a.b -> d", "a <- b", "a -- d.b"}
@@ -93,7 +111,16 @@ func oRenameArgs() (key, nn string) {
 	return key, nn
 }
 
+// oCollisionActive: the current base is of the collision family; keys are then
+// drawn from the few keys that exist in it (the container, its parent, a child).
+var oCollisionActive bool
+
+var oCollisionKeys = []string{"a", "p.a", "p", "x", "a.x", "p.x", "z"}
+
 func oKey(tag string, edges bool) string {
+	if oCollisionActive {
+		return oCollisionKeys[nd.Choose(tag+"ck", 0, len(oCollisionKeys)-1)]
+	}
 	if edges && nd.Bool(tag+"edge") {
 		return oEdgeKeys[nd.Choose(tag+"ek", 0, len(oEdgeKeys)-1)]
 	}
@@ -379,13 +406,23 @@ func VerifC38Delete() {
 		} else if oIsDesc(e.Src, t) || oIsDesc(e.Dst, t) {
 			except[e.Label.Value] = true
 			e2 := oEdgeByLabel(g2, e.Label.Value)
-			nd.Assert(e2 != nil && e2.Src.Label.Value == e.Src.Label.Value && e2.Dst.Label.Value == e.Dst.Label.Value, "Delete: connections of the children stay attached to the same objects")
+			nd.Assert(e2 != nil, "Delete: connections of the children are kept")
+			// endpoints are followed by label; an implicit label (equal to the ID) changes when a hoisted child is renamed
+			if e.Src.Label.Value != e.Src.ID {
+				nd.Assert(e2.Src.Label.Value == e.Src.Label.Value, "Delete: connections of the children stay attached to the same source")
+			}
+			if e.Dst.Label.Value != e.Dst.ID {
+				nd.Assert(e2.Dst.Label.Value == e.Dst.Label.Value, "Delete: connections of the children stay attached to the same destination")
+			}
 		}
 	}
 	nd.Assert(len(g2.Edges) == len(g.Edges)-attached, "Delete: only attached connections are removed")
 	for _, o := range g.Objects {
 		if oIsDesc(o, t) {
 			except[o.Label.Value] = true
+			if o.Label.Value == o.ID {
+				continue // an implicit label changes when the hoisted child is renamed: not followed
+			}
 			o2 := oObjByLabel(g2, o.Label.Value)
 			nd.Assert(o2 != nil, "Delete: descendants of the target are kept")
 			if o.Parent == t {
@@ -425,6 +462,11 @@ func VerifC39Move() {
 	nd.Cover("moved")
 	except := map[string]bool{t.Label.Value: true}
 	for _, o := range g.Objects {
+		if o.Label.Value == o.ID {
+			// an implicit label is the object's name and changes with it: not followed by label
+			except[o.Label.Value] = true
+			continue
+		}
 		o2 := oObjByLabel(g2, o.Label.Value)
 		nd.Assert(o2 != nil, "Move/Rename: every object is kept with its label")
 		nd.Assert(o2.Shape.Value == o.Shape.Value, "Move/Rename: attributes are kept")
@@ -442,12 +484,17 @@ func VerifC39Move() {
 		except[e.Label.Value] = true
 		e2 := oEdgeByLabel(g2, e.Label.Value)
 		nd.Assert(e2 != nil, "Move/Rename: every connection is kept with its label")
-		nd.Assert(e2.Src.Label.Value == e.Src.Label.Value && e2.Dst.Label.Value == e.Dst.Label.Value, "Move/Rename: connections stay attached to the same objects")
+		if e.Src.Label.Value != e.Src.ID {
+			nd.Assert(e2.Src.Label.Value == e.Src.Label.Value, "Move/Rename: connections stay attached to the same source")
+		}
+		if e.Dst.Label.Value != e.Dst.ID {
+			nd.Assert(e2.Dst.Label.Value == e.Dst.Label.Value, "Move/Rename: connections stay attached to the same destination")
+		}
 	}
 	nd.Assert(len(g2.Edges) == len(g.Edges), "Move/Rename: no connection is added or dropped")
 	oOthersUnchanged(g, g2, except, "Move/Rename")
 	for _, o2 := range g2.Objects {
-		if oObjByLabel(g, o2.Label.Value) == nil {
+		if oObjByLabel(g, o2.Label.Value) == nil && !oCollisionActive {
 			// a container created on the destination path: it must enclose the moved object
 			m2 := oObjByLabel(g2, t.Label.Value)
 			nd.Assert(oIsDesc(m2, o2), "Move: only missing containers on the destination path are created")
@@ -458,6 +505,8 @@ func VerifC39Move() {
 // VerifC40Deltas: the predicted ID changes agree with the edit itself.
 func VerifC40Deltas() {
 	g, _ := oBase()
+	c40MoveHoists := false
+	isContainerA := func(k string) bool { k = strings.ToLower(k); return k == "a" || k == "p.a" }
 	var deltas map[string]string
 	var g2 *d2graph.Graph
 	var derr, err error
@@ -471,10 +520,12 @@ func VerifC40Deltas() {
 		deltas, derr = RenameIDDeltas(g, nil, key, nn)
 		g2, _, err = Rename(g, nil, key, nn)
 	case 2:
-		key, to, incl, _ := oMoveArgs()
+		key, to, incl, follows := oMoveArgs()
+		c40MoveHoists = isContainerA(key) && !follows
 		deltas, derr = MoveIDDeltas(g, key, to, incl)
 		g2, err = Move(g, nil, key, to, incl)
 	case 3:
+		nd.Assume(!oCollisionActive) // the collision family has at most one connection: reconnects are explored on the other bases
 		key := oEdgeKeys[nd.Choose("kek", 0, len(oEdgeKeys)-1)]
 		s, d := oKey("src", false), oKey("dst", false)
 		var sp, dp *string
@@ -491,9 +542,23 @@ func VerifC40Deltas() {
 		nd.Cover("refused")
 		return
 	}
+	if oDeepCollision && c40MoveHoists && nd.Known("C40-move-nested-container-conflict-names") {
+		// recorded finding: moving a nested container out of its parent without its
+		// descendants hoists the children into the parent; when their names are taken there,
+		// MoveIDDeltas and Move pick different replacement names
+		return
+	}
 	nd.Cover("predicted")
 	used := map[string]bool{}
 	for _, o := range g.Objects {
+		if o.Label.Value == o.ID {
+			// an implicit label changes with the ID: such an object cannot be followed by label
+			// (its connections, which carry explicit labels, are)
+			if _, predicted := deltas[o.AbsID()]; predicted {
+				used[o.AbsID()] = true
+			}
+			continue
+		}
 		o2 := oObjByLabel(g2, o.Label.Value)
 		if o2 == nil {
 			_, predicted := deltas[o.AbsID()]
@@ -526,4 +591,77 @@ func VerifC40Deltas() {
 	for k := range deltas {
 		nd.Assert(used[k], "every predicted change names an element that exists and survives")
 	}
+}
+
+// ---- C41: edits addressed to a board stay within that board
+
+const oBoardsText = "a: LA\nb: LB\na -> b: LE\nlayers: {\n  l: {\n    c: LC\n    d: LD\n    c -> d: LF\n  }\n  k: {\n    e: LK\n  }\n}\nscenarios: {\n  s: {\n    f: LG\n    a -> f: LH\n  }\n}\n"
+
+func oBoardBodies(g *d2graph.Graph) map[string]string {
+	out := map[string]string{"root": d2compiler.VBody(g, false)}
+	for _, b := range g.Layers {
+		out["layers."+b.Name] = d2compiler.VBody(b, false)
+	}
+	for _, b := range g.Scenarios {
+		out["scenarios."+b.Name] = d2compiler.VBody(b, false)
+	}
+	return out
+}
+
+// VerifC41Boards: an edit addressed to a nested board changes only that board
+// (and boards inheriting from it); the base board and unrelated boards
+// compile to the same content as before, whether the edit succeeds or not.
+func VerifC41Boards() {
+	g := oCompile(oBoardsText)
+	nd.Assert(g != nil, "the board template compiles")
+	before := oBoardBodies(g)
+	paths := [][]string{{"l"}, {"k"}, {"s"}}
+	selves := []string{"layers.l", "layers.k", "scenarios.s"}
+	bi := nd.Choose("board", 0, len(paths)-1)
+	bp := paths[bi]
+	self := selves[bi]
+	keys := []string{"c", "d", "e", "f", "a", "b", "z", "c.x", "(c -> d)[0]", "(a -> f)[0]", "(a -> b)[0]", "C"}
+	key := keys[nd.Choose("key", 0, len(keys)-1)]
+	var g2 *d2graph.Graph
+	var err error
+	switch nd.Choose("op", 0, 4) {
+	case 0:
+		ck := key
+		if strings.Contains(ck, "(") {
+			ck = []string{"c -> d", "a -> f", "e -> z"}[nd.Choose("ck", 0, 2)]
+		}
+		g2, _, err = Create(g, bp, ck)
+	case 1:
+		v := nd.From("val", 1, "xX1 ")
+		g2, err = Set(g, bp, key, nil, &v)
+	case 2:
+		g2, err = Delete(g, bp, key)
+	case 3:
+		nd.Assume(!strings.Contains(key, "("))
+		g2, _, err = Rename(g, bp, key, []string{"z", "d", "a"}[nd.Choose("nn", 0, 2)])
+	case 4:
+		nd.Assume(!strings.Contains(key, "("))
+		to := keys[nd.Choose("to", 0, 7)]
+		lk, lt := strings.ToLower(key), strings.ToLower(to)
+		nd.Assume(lk != lt && !strings.HasPrefix(lt, lk+"."))
+		g2, err = Move(g, bp, key, to, nd.Bool("desc"))
+	}
+	if err != nil {
+		nd.Cover("refused")
+		// a refused edit must not have modified the graph it was given
+		after := oBoardBodies(g)
+		for k, v := range before {
+			nd.Assert(after[k] == v, "a refused edit leaves every board as it was")
+		}
+		return
+	}
+	nd.Cover("edited")
+	after := oBoardBodies(g2)
+	for k, v := range before {
+		if k == self {
+			continue
+		}
+		nd.Assert(after[k] == v, "an edit addressed to one board changed another board")
+	}
+	oStable(g2)
 }
